@@ -980,3 +980,173 @@ def check_defined(ctx, rule: str, qualnames: Iterable[str], classes: Iterable[st
         ctx.ob(rule, f"every self.<attr> read by {c.name} is assigned somewhere in its class hierarchy", not bad2, qualname=cq,
                func=(bad2[0][0] if bad2 else None), node=(bad2[0][1] if bad2 else c.node), instance=f"attrs:{cq}:" + (bad2[0][1].attr if bad2 else ""),
                message=f"`self.{bad2[0][1].attr}` is read in {bad2[0][0].qualname} but never assigned in the class hierarchy: AttributeError" if bad2 else "")
+
+
+# ------------------------------------------------------------------ retry guard tabulation (P10; C17.R1, C16.R7)
+#
+# `RollbackFailureManager._update_request` decides with a guard over (self.max_retries, <request>.version)
+# whether a failed job is rolled back once more.  The guard is folded over a finite set of valuations by
+# walking the CFG of the function; nothing of /repo is executed.
+
+
+class GuardCrash(Exception):
+    pass
+
+
+def is_version(f, e) -> bool:
+    return isinstance(e, ast.Attribute) and e.attr == "version"
+
+
+def is_max(f, e) -> bool:
+    return isinstance(e, ast.Attribute) and e.attr == "max_retries"
+
+
+def guard_val(f, e, env, depth=0):
+    e = strip(e)
+    if is_version(f, e):
+        return env["version"]
+    if is_max(f, e):
+        return env["max"]
+    if isinstance(e, ast.Constant) and (e.value is None or isinstance(e.value, (int, bool))):
+        return e.value
+    if isinstance(e, ast.BinOp) and isinstance(e.op, (ast.Add, ast.Sub)):
+        a, b = guard_val(f, e.left, env, depth), guard_val(f, e.right, env, depth)
+        if a is None or b is None:
+            raise GuardCrash(unparse(e))
+        return a + b if isinstance(e.op, ast.Add) else a - b
+    if isinstance(e, ast.Name) and depth < 3:
+        ds = defs_of(f, e.id)
+        if len(ds) == 1 and ds[0].kind in ("assign", "walrus") and ds[0].index is None:
+            return guard_val(f, ds[0].value, env, depth + 1)
+    raise Uninterpretable(unparse(e))
+
+
+def guard_atom_key(f, e):
+    """Identity of an atom outside the (version, max_retries) vocabulary.  A parameter that is never
+    re-bound has one value per activation (its occurrences are correlated); anything else is an
+    independent unknown per occurrence."""
+    x = strip(e)
+    if isinstance(x, ast.Name) and x.id in f.params and all(d.kind == "param" for d in defs_of(f, x.id)):
+        return ("param", x.id)
+    return ("expr", id(e))
+
+
+def guard_interpretable(f, e) -> bool:
+    try:
+        guard_val(f, e, {"max": 1, "version": 1})
+    except GuardCrash:
+        return True
+    except Uninterpretable:
+        return False
+    return True
+
+
+def guard_free_atoms(f, e, out=None) -> dict:
+    """key -> atom expression, for the atoms of guard `e` that `guard_val` cannot evaluate."""
+    out = {} if out is None else out
+    if isinstance(e, ast.BoolOp):
+        for v in e.values:
+            guard_free_atoms(f, v, out)
+    elif isinstance(e, ast.UnaryOp) and isinstance(e.op, ast.Not):
+        guard_free_atoms(f, e.operand, out)
+    elif isinstance(e, ast.Compare):
+        if not all(guard_interpretable(f, x) for x in [e.left, *e.comparators]) or not all(
+            isinstance(op, (ast.Is, ast.IsNot, ast.Eq, ast.NotEq, ast.Lt, ast.LtE, ast.Gt, ast.GtE)) for op in e.ops
+        ):
+            out.setdefault(guard_atom_key(f, e), e)
+    elif not guard_interpretable(f, e):
+        out.setdefault(guard_atom_key(f, e), e)
+    return out
+
+
+def guard_truth(f, e, env):
+    """Fold a guard over env = {version, max, free: {atom key: bool}}.  Atoms outside the
+    (version, max_retries) vocabulary take the truth value `env['free']` gives them (the caller
+    enumerates both); Uninterpretable only when the caller did not provide one."""
+    free = env.get("free") or {}
+    if free and not isinstance(e, (ast.BoolOp,)) and not (isinstance(e, ast.UnaryOp) and isinstance(e.op, ast.Not)):
+        k = guard_atom_key(f, e)
+        if k in free:
+            return free[k]
+    if isinstance(e, ast.BoolOp):
+        if isinstance(e.op, ast.And):
+            for v in e.values:
+                if not guard_truth(f, v, env):
+                    return False
+            return True
+        for v in e.values:
+            if guard_truth(f, v, env):
+                return True
+        return False
+    if isinstance(e, ast.UnaryOp) and isinstance(e.op, ast.Not):
+        return not guard_truth(f, e.operand, env)
+    if isinstance(e, ast.Compare):
+        left = guard_val(f, e.left, env)
+        for op, r in zip(e.ops, e.comparators):
+            right = guard_val(f, r, env)
+            if isinstance(op, ast.Is):
+                res = left is right
+            elif isinstance(op, ast.IsNot):
+                res = left is not right
+            elif isinstance(op, ast.Eq):
+                res = left == right
+            elif isinstance(op, ast.NotEq):
+                res = left != right
+            else:
+                if left is None or right is None:
+                    raise GuardCrash(unparse(e))
+                res = {ast.Lt: left < right, ast.LtE: left <= right, ast.Gt: left > right, ast.GtE: left >= right}.get(type(op))
+                if res is None:
+                    raise Uninterpretable(unparse(e))
+            if not res:
+                return False
+            left = right
+        return True
+    v = guard_val(f, e, env)
+    return bool(v)
+
+
+def guard_walk(f, env, avoid=()):
+    """Nodes reachable from entry over normal edges when guards over (version, max_retries) are
+    decided by `env`; other tests branch both ways.  Returns (reachable, crashed guard text | None)."""
+    g = f.cfg
+    avoid = set(avoid)
+    seen = {g.entry}
+    todo = [g.entry]
+    crash = None
+    while todo:
+        a = todo.pop()
+        n = g.nodes[a]
+        kinds = NORMAL
+        if n.kind == "test" and n.ast is not None and mentions(f, n.ast, lambda x: is_version(f, x) or is_max(f, x)):
+            try:
+                kinds = {"t"} if guard_truth(f, effective_test(f, n.ast), env) else {"f"}
+            except GuardCrash as c:
+                crash = str(c)
+                continue
+            except Uninterpretable:
+                kinds = NORMAL  # an unknown the caller did not enumerate: both outcomes
+        for b, k in g.succ[a]:
+            if k in kinds and b not in seen and b not in avoid:
+                seen.add(b)
+                todo.append(b)
+    return seen, crash
+
+
+def retry_allowed(env) -> bool:
+    return env["max"] is None or env["version"] < env["max"]
+
+
+RETRY_ENVS = [{"max": m, "version": v} for m in (None, 1, 2, 3) for v in (1, 2, 3, 4, 5)]
+
+
+def is_version_increment(n: ast.AST) -> bool:
+    if isinstance(n, ast.AugAssign) and isinstance(n.op, ast.Add) and isinstance(n.value, ast.Constant) and n.value.value == 1:
+        return isinstance(n.target, ast.Attribute) and n.target.attr == "version"
+    if isinstance(n, ast.Assign) and len(n.targets) == 1 and isinstance(n.targets[0], ast.Attribute) and n.targets[0].attr == "version":
+        v = n.value
+        if isinstance(v, ast.BinOp) and isinstance(v.op, ast.Add):
+            for a, b in ((v.left, v.right), (v.right, v.left)):
+                if isinstance(a, ast.Attribute) and a.attr == "version" and unparse(a.value) == unparse(n.targets[0].value) and isinstance(b, ast.Constant) and b.value == 1:
+                    return True
+    return False
